@@ -239,8 +239,8 @@ var (
 		[]byte{0xc4, 0x9b}, []byte{0xc3, 0xba}, []byte{0xc5, 0xa1},
 	}
 	teletextNationalSubsetEnglish = &teletextNationalSubset{
-		[]byte{0xc2, 0xa3}, []byte{0x24}, []byte{0x40}, []byte{0xc2, 0xab}, []byte{0xc2, 0xbd}, []byte{0xc2, 0xbb},
-		[]byte{0x5e}, []byte{0x23}, []byte{0x2d}, []byte{0xc2, 0xbc}, []byte{0xc2, 0xa6}, []byte{0xc2, 0xbe},
+		[]byte{0xc2, 0xa3}, []byte{0x24}, []byte{0x40}, []byte{0xe2, 0x86, 0x90}, []byte{0xc2, 0xbd}, []byte{0xe2, 0x86, 0x92},
+		[]byte{0xe2, 0x86, 0x91}, []byte{0x23}, []byte{0xe2, 0x80, 0x94}, []byte{0xc2, 0xbc}, []byte{0xe2, 0x80, 0x96}, []byte{0xc2, 0xbe},
 		[]byte{0xc3, 0xb7},
 	}
 	teletextNationalSubsetEstonian = &teletextNationalSubset{
@@ -260,7 +260,7 @@ var (
 	}
 	teletextNationalSubsetItalian = &teletextNationalSubset{
 		[]byte{0xc2, 0xa3}, []byte{0x24}, []byte{0xc3, 0xa9}, []byte{0xc2, 0xb0}, []byte{0xc3, 0xa7},
-		[]byte{0xc2, 0xbb}, []byte{0x5e}, []byte{0x23}, []byte{0xc3, 0xb9}, []byte{0xc3, 0xa0}, []byte{0xc3, 0xb2},
+		[]byte{0xe2, 0x86, 0x92}, []byte{0xe2, 0x86, 0x91}, []byte{0x23}, []byte{0xc3, 0xb9}, []byte{0xc3, 0xa0}, []byte{0xc3, 0xb2},
 		[]byte{0xc3, 0xa8}, []byte{0xc3, 0xac},
 	}
 	teletextNationalSubsetLettishLithuanian = &teletextNationalSubset{
